@@ -111,62 +111,6 @@ theorem gen_nitf_writer_compliance (h : ImgHdr) (pilNone : Bool) :
   simp only [gen_is_compressed, Except.bind]
   split_ifs <;> simp_all
 
-theorem gen_sicd_reader_compliance (h : ImgHdr) (pilNone : Bool) (pt : String) :
-    Gen.Hdr.sicd_reader_compliance h pilNone pt = sicdReaderCompliance h pilNone pt := by
-  unfold Gen.Hdr.sicd_reader_compliance sicdReaderCompliance
-  simp only [gen_nitf_reader_compliance, gen_get_dtype]
-  cases nitfReaderCompliance h pilNone with
-  | false => rfl
-  | true =>
-    cases getDtype h with
-    | error e => rfl
-    | ok d =>
-      obtain ⟨raw, fd, fb, order, lut⟩ := d
-      cases order with
-      | none => rfl
-      | some o =>
-        cases h4 : dtypeName raw with
-        | error e => simp only [Except.bind, Option.elim, h4]; hdr_crush
-        | ok nm => simp only [Except.bind, Option.elim, sicdRequires, h4]; hdr_crush
-
-theorem gen_sicd_reader_format_function (raw : Option RawDtype) (order : Option String) (lut : Option Lut) (bd : Nat) (pt : String) (amp : Bool) :
-    Gen.Hdr.sicd_reader_format_function raw order lut bd pt amp = sicdFormatFunction raw order lut bd pt amp := by
-  unfold Gen.Hdr.sicd_reader_format_function sicdFormatFunction
-  simp only [gen_format_function]
-  cases order with
-  | none => rfl
-  | some o => cases h4 : dtypeName raw <;> simp only [Except.bind, Option.elim] <;> hdr_crush
-
-theorem gen_sicd_writer_format_function (raw : Option RawDtype) (order : Option String) (lut : Option Lut) (bd : Nat) (pt : String) (amp : Bool) :
-    Gen.Hdr.sicd_writer_format_function raw order lut bd pt amp = sicdFormatFunction raw order lut bd pt amp := by
-  unfold Gen.Hdr.sicd_writer_format_function sicdFormatFunction
-  simp only [gen_format_function]
-  cases order with
-  | none => rfl
-  | some o => cases h4 : dtypeName raw <;> simp only [Except.bind, Option.elim] <;> hdr_crush
-
-theorem gen_check_iid_format (iid1 : String) : Gen.Hdr.check_iid_format iid1 = .ok (checkIidFormat iid1) := by
-  unfold Gen.Hdr.check_iid_format checkIidFormat
-  split_ifs <;> simp_all
-
-theorem gen_sidd_reader_compliance (h : ImgHdr) (pilNone : Bool) :
-    Gen.Hdr.sidd_reader_compliance h pilNone = .ok (siddReaderCompliance h pilNone) := by
-  unfold Gen.Hdr.sidd_reader_compliance siddReaderCompliance
-  simp only [gen_nitf_reader_compliance, gen_check_iid_format, Except.bind]
-  cases nitfReaderCompliance h pilNone <;> cases checkIidFormat h.iid1 <;> by_cases h3 : h.icat = "SAR" <;> simp [h3]
-
-theorem gen_sicd_writer_hdr (pt : String) (rows cols : Nat) (iid1 : String) :
-    Gen.Hdr.sicd_writer_hdr pt rows cols iid1 = sicdWriterHdr pt rows cols iid1 := by
-  unfold Gen.Hdr.sicd_writer_hdr sicdWriterHdr SicdPixel.ofName
-  simp only [show ∀ n : Nat, (if n > 8192 then 0 else n) = nppb n from fun _ => rfl]
-  split_ifs <;> rfl
-
-theorem gen_sidd_writer_hdr (pt : String) (rows cols : Nat) (iid1 : String) :
-    Gen.Hdr.sidd_writer_hdr pt rows cols iid1 = siddWriterHdr pt rows cols iid1 := by
-  unfold Gen.Hdr.sidd_writer_hdr siddWriterHdr SiddPixel.ofName
-  simp only [show ∀ n : Nat, (if n > 8192 then 0 else n) = nppb n from fun _ => rfl]
-  split_ifs <;> first | rfl | (exfalso; simp_all; done)
-
 theorem gen_glue : Gen.Hdr.glue = glue := rfl
 
 end Sarpy.Bridge.Hdr
